@@ -37,6 +37,7 @@ REGRESSIONS = [
     ("CloseLock", "FALSE", "lost wake-up in WorkStealingQueue::close"),
     ("WakeOnError", "FALSE", "coordinator blocked in recv() when a worker fails"),
     ("EofIsError", "FALSE", "end of input without terminator treated as clean end"),
+    ("PanicGuard", "FALSE", "worker panic leaves the coordinator blocked in recv()"),
 ]
 
 
